@@ -3,6 +3,21 @@
 import json, pathlib, sys
 V = pathlib.Path(__file__).resolve().parent.parent
 CHECKS = {
+ "C12": dict(
+   technique="property-based testing: generic undefined-function fields over all shapes (symbolic identities decide a whole shape) + Hypothesis-generated concrete fields vs. a harness-computed Cartesian truth through the local orthonormal frame (reference model), curl grad = 0 and div curl = 0 identities",
+   text="54 generic shapes (3 systems x scalar / 0-4 components x construction modes) are judged symbolically against a harness derivation (frame vectors and inverse Jacobian of the textbook maps), so the nine curvilinear formulas are compared for arbitrary smooth fields; 240 generated concrete fields quick / 4000 thorough are judged numerically at 5 regular points through a second harness derivation; zero padding and the 4-component refusal are checked.",
+   note="Trusted: the harness maps (legacy spherical convention r, theta=azimuth, phi=polar, asserted at start-up), SymPy diff/simplify. Every one of the 42 formula entries is touched in every run (reported in evidence).",
+   ref="DESIGN.md section 2/C12; notes/C12.md"),
+ "C13": dict(
+   technique="property-based testing: Hypothesis-generated polynomial/trigonometric fields x circles, ellipses, rectangles, tilted discs, paraboloid/cone caps, boxes, shells; differential oracle between the library's boundary and region routes plus harness closed forms monomial by monomial; metamorphic reparametrisation and orientation relations",
+   text="160 cases quick / 2400 thorough, one per worker task with a hang guard: Stokes (curve vs curl over surface), Green (curve flux vs divergence over parametrised and implicit regions), Gauss (six faces vs volume); every route is also compared with a harness closed form so two library routes cannot be wrong together; results must be free of coordinate variables, invariant under parameter speed, negated by orientation reversal.",
+   note="Trusted: harness closed forms in vp/checks/c13_model.py (no SymPy integrate), degree <= 3 fields, regions SymPy can integrate. Hang-guard expiries are inconclusive.",
+   ref="DESIGN.md section 2/C13; notes/C13.md"),
+ "C19": dict(
+   technique="exhaustive sweep of all 735 generated pages (file set vs harness tree scan, member completeness, formulas read back with the harness parsers and compared by value with the imported module's own attribute, symbol table, role targets) + byte-level determinism (same process, fresh process) + stateful Hypothesis machine over generation/library-use interleavings with global-state invariants",
+   text="Full generation must succeed, produce exactly the expected page set, be byte-identical when repeated in the same and in a fresh process, leave sympy's evaluate flag and canary computations unchanged; every generated :code:/math formula must denote the value of that module's own equation (612 formulas read back), every symbol-table row (2687) must equal the imported attribute's renderings, every documented member/function must be listed, every role-emitted cross-reference (2152) must resolve; 60 histories quick / 400 thorough interleave single-page generation, full generation and library use.",
+   note="Trusted: the harness parsers and M-interp (as C17/C18), the harness title scanner. 8 formulas outside the parsers are listed as unparsed. Two open known findings (factor order follows internal names across repeated generations; statistical_weight LaTeX).",
+   ref="DESIGN.md section 2/C19"),
  "C03": dict(
    technique="property-based testing over process-level histories: Hypothesis-generated id-counter states at digit boundaries, garbage creations and import orders, each executed in a fresh interpreter; differential oracle against the reference history (import success, value fingerprints of equations, calculation results)",
    text="Every catalogue module is observed when imported first with fresh counters (reference) and under generated counter states that make its own symbols straddle 9/10, 99/100, ... boundaries (1 state per module quick, 5 thorough), plus 8 (64) full-catalogue imports in generated orders; import must succeed and every equation's value fingerprint (keyed by display name + dimension) and every calculation result must equal the reference.",
